@@ -428,15 +428,28 @@ func (e *env) secMpc() {
 						sealedRecv = in.Seal(a1, beacon)
 						sealedSend = in.Seal(cur, beacon)
 					}) {
-						same := c.Check("MpcSetup.roundtrip", N+"/MpcSetup/roundtrip-mismatch/sealed-srs-differs", in.EqualObj(sealedSend, sealedRecv), func() string {
-							g1s, _ := in.VkPoints(in.Vk(sealedSend))
-							g1r, _ := in.VkPoints(in.Vk(sealedRecv))
-							return fmt.Sprintf("N=%d: Seal(beacon) of the transcript read back from its own bytes differs from Seal(beacon) of the sender's object: Vk.G1 sender=%v received=%v; Pk equal=%v",
-								n, g1s, g1r, in.EqualObj(in.Pk(sealedSend), in.Pk(sealedRecv)))
+						// component by component, so that a recorded finding on one component hides nothing else
+						g1s, g2s := in.VkPoints(in.Vk(sealedSend))
+						g1r, g2r := in.VkPoints(in.Vk(sealedRecv))
+						what := fmt.Sprintf("N=%d: Seal(beacon) of the transcript read back from its own bytes vs Seal(beacon) of the sender's object", n)
+						same := c.Check("MpcSetup.roundtrip", N+"/MpcSetup/roundtrip-mismatch/sealed-srs/Pk", in.EqualObj(in.Pk(sealedSend), in.Pk(sealedRecv)), func() string { return what + ": Pk.G1 differ" })
+						sameG1 := c.Check("MpcSetup.roundtrip", N+"/MpcSetup/roundtrip-mismatch/sealed-srs/Vk.G1", g1s.Eq(g1r), func() string {
+							return fmt.Sprintf("%s: Vk.G1 sender=%v received=%v", what, g1s, g1r)
 						})
+						sameG2 := c.Check("MpcSetup.roundtrip", N+"/MpcSetup/roundtrip-mismatch/sealed-srs/Vk.G2", e.o2.F.Eq(g2s[0].X, g2r[0].X) && e.o2.F.Eq(g2s[0].Y, g2r[0].Y) && e.o2.F.Eq(g2s[1].X, g2r[1].X) && e.o2.F.Eq(g2s[1].Y, g2r[1].Y), func() string {
+							return what + ": Vk.G2 differ"
+						})
+						if same && sameG1 && sameG2 {
+							same = c.Check("MpcSetup.roundtrip", N+"/MpcSetup/roundtrip-mismatch/sealed-srs/Vk.Lines", in.EqualObj(in.Vk(sealedSend), in.Vk(sealedRecv)), func() string { return what + ": Vk.Lines differ" })
+						}
+						c.Check("MpcSetup.Seal", N+"/MpcSetup.Seal/vk-lines-mismatch", in.VkLinesOK(in.Vk(sealedSend)), func() string { return "sealed Vk.Lines != PrecomputeLines(Vk.G2)" })
 						e.sealedUsable(rng, "sender", sealedSend, f)
-						if !same {
-							e.sealedUsable(rng, "after-roundtrip", sealedRecv, f)
+						if !(same && sameG1 && sameG2) {
+							how := "after-roundtrip"
+							if same && sameG2 && g1r.Inf() {
+								how = "after-roundtrip/Vk.G1-missing"
+							}
+							e.sealedUsable(rng, how, sealedRecv, f)
 						}
 					}
 				}
